@@ -1,5 +1,6 @@
 """Contract stubs for C-level / transcendental library calls (DESIGN.md 4)."""
 import math as _math
+import os
 import types
 from fractions import Fraction
 
@@ -429,6 +430,9 @@ def quaternion_of_rotation(M):
         q = [mk(z3.simplify(sg * p)) for p in r.q]
         qz = [toz(x) for x in q]
     else:
+        if os.environ.get("EVOVERIF_DEBUG"):
+            print("quaternion_of_rotation fallback: lookup=%r sigma=%r entry00=%s nfkey=%s" % (
+                r is not None, getattr(r, "sigma", None), str(M[0, 0])[:300], symrot.nf_key(M) is not None))
         qs = [c.fresh("qm") for _ in range(4)]
         R = symrot.quat_R(qs)
         eqs = [R[i][j] == toz(M[i, j]) for i in range(3) for j in range(3)]
